@@ -443,65 +443,86 @@ func Run(c *engine.Ctx) {
 	c.Add("transitions", transitions)
 	c.Add("evaluations", transitions)
 	c.Add("traces_validated_against_impl", transitions)
-	c.Cov["rule"] = "explicit-state BFS over histories on alphabet {login, ticket(s1|s2|other-realm service), advance(+1s | next timer | earliest ticket end -1s/+1s | TGT end +1s | renew-till +1s), destroy}: depth 5 (7 thorough) on two configurations, depth 3 (4) on a pairwise-covering set of configurations over 9 settings; referral chains of length 0..8; canonical state = sessions, cache entries and pending timers relative to the clock; distinct = canonical states"
+	c.Cov["rule"] = "explicit-state BFS over histories on alphabet {login, ticket(s1|s2|other-realm service), advance(+1s | next timer | earliest ticket end -1s/+1s | TGT end +1s | renew-till +1s), destroy}: depth 5 (7 thorough) on two configurations, depth 3 (4) on a pairwise-covering set of configurations over 9 settings; referral chains of length 0..12 and a 3-realm referral cycle, against the strict KDC and against KDCs tolerating the known authenticator-crealm finding; canonical state = sessions, cache entries and pending timers relative to the clock; distinct = canonical states"
 }
 
-// referralChains: chains within the bound succeed with a ticket of the last realm, longer ones fail; exchanges stay bounded.
+// referralChains: chains within the bound succeed with a ticket of the last realm, longer ones and cycles fail
+// after a fixed number of exchanges. Run once against the strict KDC and once against KDCs that tolerate the
+// authenticator-crealm defect recorded as a known finding, so that the bound itself is reachable.
 func referralChains(c *engine.Ctx, transitions *int64) {
-	for n := 0; n <= 8; n++ {
-		o := cworld.DefaultOpts()
-		o.Canonicalize = true
-		o.ChainRealms = n
-		var err error
-		var w *cworld.World
-		var tb []byte
-		var keyv []byte
-		x := vsched.Run(nil, 200000, func() {
-			vclock.Virtual(cworld.T0)
-			w = cworld.New(o)
+	type res struct {
+		nreq int
+		ok   bool
+	}
+	for _, lenient := range []bool{false, true} {
+		results := map[int]res{}
+		for n := 0; n <= 13; n++ {
+			o := cworld.DefaultOpts()
+			o.Canonicalize = true
+			o.ChainRealms = n
+			o.LenientCRealm = lenient
+			cycle := n == 13 // 13: a cycle R1 -> R2 -> R3 -> R1
+			if cycle {
+				o.ChainRealms, o.ChainCycle = 3, true
+			}
+			var err error
+			var w *cworld.World
+			var tb []byte
+			var keyv []byte
 			spn := "HTTP/host.chain.gokrb5"
 			if n == 0 {
 				spn = spns["s1"]
 			}
-			if e := w.Client.Login(); e != nil {
+			x := vsched.Run(nil, 200000, func() {
+				vclock.Virtual(cworld.T0)
+				w = cworld.New(o)
+				if e := w.Client.Login(); e != nil {
+					err = e
+					return
+				}
+				tkt, key, e := w.Client.GetServiceTicket(spn)
 				err = e
-				return
+				if e == nil {
+					tb, _ = tkt.Marshal()
+					keyv = key.KeyValue
+				}
+				vsched.Quiesce()
+			})
+			*transitions++
+			rec := map[string]interface{}{"referral_chain_length": n, "cycle": cycle, "kdc_tolerates_ticket_realm_as_authenticator_crealm": lenient}
+			nreq := totalRequests(w)
+			results[n] = res{nreq, err == nil}
+			tag := "strict"
+			if lenient {
+				tag = "lenient"
 			}
-			tkt, key, e := w.Client.GetServiceTicket(spn)
-			err = e
-			if e == nil {
-				tb, _ = tkt.Marshal()
-				keyv = key.KeyValue
+			switch {
+			case x.Panic != "":
+				c.Violate("referrals", "panic:referral-chain", map[string]interface{}{"panic": x.Panic}, rec)
+			case x.Horizon || nreq > 12:
+				c.Violate("referrals", "unbounded-referral-exchanges", map[string]interface{}{"requests": nreq}, rec)
+			case err == nil:
+				is := issuedFor(w, spn, tb)
+				if cycle || is == nil || !bytes.Equal(is.SessionKey, keyv) {
+					c.Violate("referrals", "referral:ticket-not-issued", nil, rec)
+				} else {
+					c.Distinct(fmt.Sprintf("referral/%s/%d/ok", tag, n))
+				}
+			case n <= 4:
+				c.Violate("referrals", fmt.Sprintf("referral:chain-of-%d-realms-fails", n), map[string]interface{}{"err": err.Error(), "kdc": tag}, rec)
+			default:
+				c.Distinct(fmt.Sprintf("referral/%s/%d/err", tag, n))
 			}
-			vsched.Quiesce()
-		})
-		*transitions++
-		rec := map[string]interface{}{"referral_chain_length": n}
-		nreq := totalRequests(w)
-		switch {
-		case x.Panic != "":
-			c.Violate("referrals", "panic:referral-chain", map[string]interface{}{"panic": x.Panic}, rec)
-		case nreq > 16:
-			c.Violate("referrals", "unbounded-referral-exchanges", map[string]interface{}{"requests": nreq}, rec)
-		case err == nil:
-			spn := "HTTP/host.chain.gokrb5"
-			if n == 0 {
-				spn = spns["s1"]
+			if v := w.Violations(); len(v) > 0 {
+				c.Violate("referrals", "request:"+classify(v[0])+":referral", map[string]interface{}{"what": v}, rec)
 			}
-			is := issuedFor(w, spn, tb)
-			if is == nil || !bytes.Equal(is.SessionKey, keyv) {
-				c.Violate("referrals", "referral:ticket-not-issued", nil, rec)
-			} else {
-				c.Distinct(fmt.Sprintf("referral/%d/ok", n))
-			}
-		case n <= 4:
-			c.Violate("referrals", fmt.Sprintf("referral:chain-of-%d-realms-fails", n), map[string]interface{}{"err": err.Error()}, rec)
-		default:
-			c.Distinct(fmt.Sprintf("referral/%d/err", n))
+			c.Cov[fmt.Sprintf("referral_chain_%s_%d", tag, n)] = map[string]interface{}{"requests": nreq, "ok": err == nil}
 		}
-		if v := w.Violations(); len(v) > 0 {
-			c.Violate("referrals", "request:"+classify(v[0])+":referral", map[string]interface{}{"what": v}, rec)
+		if lenient {
+			// a fixed bound: past some length every chain fails after the same number of exchanges
+			if results[10].ok || results[11].ok || results[12].ok || results[13].ok || results[12].nreq != results[11].nreq || results[11].nreq != results[10].nreq {
+				c.Violate("referrals", "referral:no-fixed-bound", map[string]interface{}{"results_by_chain_length": fmt.Sprintf("%+v", results)}, map[string]interface{}{"chains": "10..12 and cycle", "kdc_tolerates_ticket_realm_as_authenticator_crealm": true})
+			}
 		}
-		c.Cov[fmt.Sprintf("referral_chain_%d", n)] = map[string]interface{}{"requests": nreq, "ok": err == nil}
 	}
 }
